@@ -76,8 +76,7 @@ def strToNum (s : List Nat) : Num :=
 /-! ### dumps -/
 
 def ptrKind (env : Env) (r : Nat) : String :=
-  if isUndefinedP env (ptr r) then "0" else
-  match envGet env r with
+  match deref env (ptr r) with
   | ptr _ => "?"
   | d => toString d.kindNum
 
